@@ -135,6 +135,10 @@ func crashLine(stderr string) string {
 // execute runs one input in a worker process; an input whose worker dies is tried once more on a fresh worker (the
 // first death may be the late effect of the previous input).
 func execute(input string) string {
+	if stuckSeen.Load() >= 40 {
+		// dozens of runs did not end: each one is already reported as a failure; the rest would only cost time
+		return "res=giveup why=too-many-runs-of-this-check-did-not-end"
+	}
 	o := execute1(input)
 	if strings.HasPrefix(o, "CRASH ") {
 		o = execute1(input)
